@@ -421,4 +421,197 @@ Section Seq.
       eapply Conc.safe_weaken; [|apply hsafe_heapify_push]. intros [[]|] l' Hl'; cbn in Hl' |- *; [|exact I].
       split; [exact Hl'|unfold push_tok; rewrite Hlt; reflexivity].
   Qed.
+
+  (** *** pop *)
+  Lemma popped_max (s : list Z) (z : item) (r : list Z) (m : nat) :
+    List.length s = S m -> Permutation s (prio z :: r) -> (forall y, In y r -> (y <= prio z)%Z) ->
+    exists s', pq_pop s = (s', RVal (Some (prio z))) /\ Permutation r s' /\ List.length s' = m /\
+               pop_tok s = [4; 1; prio z]%Z.
+  Proof.
+    intros Hl Hp Hmax. destruct (pq_pop_max cap OK SH s (prio z) r Hp Hmax) as (s' & E & Hp').
+    exists s'. split; [exact E|]. split; [apply Permutation_sym; exact Hp'|]. split.
+    - apply Permutation_length in Hp. apply Permutation_length in Hp'. cbn [List.length] in Hp. lia.
+    - unfold pop_tok. rewrite E. reflexivity.
+  Qed.
+
+  Lemma hsafe_pop hf lf s fut :
+    safe 0 (pop cap hf lf) (UpA 0 s (pop_tok s :: fut))
+      (optQ (fun r l' => l' = UpA 0 (fst (pq_pop s)) (pop_tok s :: fut) /\
+                         pop_tok s = match r with Some z => [4; 1; prio z] | None => [4; 0; 0] end%Z)).
+  Proof.
+    unfold pop. apply hsafe_lock. intros g h tg n cl HR HU0. pose proof HU0 as (HU & [M1 M2] & HH).
+    pose proof HR as (R1 & R2 & R3 & R4).
+    unfold body_pop_size. rewrite R1, bc_st_nat.
+    destruct (Z.eqb (Z.of_nat n) 0) eqn:Eempty.
+    - (* empty *)
+      apply Z.eqb_eq in Eempty. assert (En : n = 0) by lia.
+      destruct s as [|s0 sr]; [|cbn [List.length] in M2; lia].
+      cbn [fst snd flat_map]. split; [reflexivity|].
+      exists (UpA 0 [] (pop_tok [] :: fut)). split; [exists h, tg, n; split; [exact HR|exact HU0]|]. intros _. cbn [unbusy vb].
+      apply hsafe_unlock_none. cbn. split; reflexivity.
+    - (* the bottom cell is claimed *)
+      apply Z.eqb_neq in Eempty. destruct n as [|m]; [lia|].
+      destruct (brc_dec (st (S m))) as [sl c'] eqn:Edec.
+      assert (Esl : Z.to_nat sl = slot (S m)) by (rewrite <- (slot_dec m), Edec; reflexivity).
+      assert (Ec' : c' = st m) by (pose proof (dec_st cap OK (S m) ltac:(lia)) as K; rewrite Edec in K; exact K).
+      set (b := slot (S m)) in *. rewrite Esl.
+      assert (Rb : 1 <= b <= cap) by (apply (slot_range cap OK); lia).
+      assert (Hin : Nat.ltb b (bufsize cap) = true) by (apply Nat.ltb_lt; unfold bufsize; lia). rewrite Hin.
+      cbn [fst snd flat_map]. split; [reflexivity|].
+      exists (fun h' tg' n' cl' => n' = m /\ UpA 0 s (pop_tok s :: fut) h' tg' (S m) cl'). split.
+      { exists h, tg, m. split; [|split; [reflexivity|exact HU0]]. subst c'. apply (Rep_set_ctr g h tg (S m) m HR). lia. }
+      intros _. cbn [unbusy vb vn].
+      destruct (Nat.eqb_spec b 1) as [Eb|Nb].
+      + (* nBottom = 1: the top cell itself is taken *)
+        apply hsafe_lock. intros g2 h2 tg2 n2 cl2 HR2 (En2 & HU2 & [M21 M22] & HH2). subst n2.
+        pose proof HR2 as (S1 & S2 & S3 & S4).
+        pose proof (UpInv0_Good cap OK SH (S m) h2 tg2 ltac:(lia) HU2) as HG2. pose proof HG2 as (HO2 & _ & _).
+        assert (Hex : exists z, h2 1 = Some z).
+        { pose proof (Occ_slot cap OK SH (S m) h2 (S m) HO2 ltac:(lia)) as K. fold b in K. rewrite Eb in K.
+          destruct (h2 1) as [z|]; [eauto|congruence]. }
+        destruct Hex as [z Ez].
+        cbn [body_take fst snd flat_map]. split; [reflexivity|].
+        pose proof (Good_take cap OK SH m h2 tg2 ltac:(lia) HG2) as HGt. fold b in HGt. rewrite Eb in HGt.
+        assert (Hp : Permutation s (prio z :: prios cap (upd h2 1 None))).
+        { rewrite <- M21. apply (prios_take cap OK SH h2 1 z ltac:(lia) Ez). }
+        assert (Hmax : forall y, In y (prios cap (upd h2 1 None)) -> (y <= prio z)%Z).
+        { intros y Hy. apply (in_prios cap OK SH) in Hy. destruct Hy as (k & x' & Hk & <-).
+          destruct (Nat.eq_dec k 1) as [->|K1]; [rewrite upd_same in Hk; discriminate|]. rewrite upd_other in Hk by exact K1.
+          apply (root_max cap OK SH (S m) h2 tg2 ltac:(lia) HG2 k x' z Hk Ez). }
+        destruct (popped_max s z _ m M2 Hp Hmax) as (s' & Epop & Hps & Hls & Htok).
+        exists (UpA 0 s' (pop_tok s :: fut)). split.
+        { exists (upd h2 1 None), (upd tg2 1 TEmpty), m. split; [apply Rep_set_cell; exact HR2|].
+          split; [apply (Good_UpInv0 cap OK SH); exact HGt|]. split; [split; assumption|exact HH2]. }
+        intros _. cbn [unbusy vi]. change (nval (heap g2 1)) with (cellv g2 1). rewrite S3, Ez.
+        apply hsafe_unlock_none. apply hsafe_unlock_none. cbn [optQ Conc.safe]. rewrite Epop. cbn [fst]. split; [reflexivity|exact Htok].
+      + apply hsafe_lock_none. apply hsafe_lock_none.
+        apply hsafe_unlock. intros g2 h2 tg2 n2 cl2 HR2 (En2 & HU2 & [M21 M22] & HH2). subst n2.
+        pose proof HR2 as (S1 & S2 & S3 & S4).
+        pose proof (UpInv0_Good cap OK SH (S m) h2 tg2 ltac:(lia) HU2) as HG2. pose proof HG2 as (HO2 & _ & _).
+        assert (Hex : exists xb, h2 b = Some xb).
+        { pose proof (Occ_slot cap OK SH (S m) h2 (S m) HO2 ltac:(lia)) as K. fold b in K. destruct (h2 b) as [xb|]; [eauto|congruence]. }
+        destruct Hex as [xb Exb].
+        assert (Hm1 : 1 <= m).
+        { destruct m as [|m']; [|lia]. exfalso. apply Nb. unfold b. apply slot_1. }
+        cbn [body_take fst snd flat_map]. split; [reflexivity|].
+        pose proof (Good_take cap OK SH m h2 tg2 ltac:(lia) HG2) as HGt. fold b in HGt.
+        exists (fun h' tg' n' cl' => n' = m /\ Good m h' tg' /\ Permutation (prio xb :: prios cap h') s /\
+                                    (forall z, h' 1 = Some z -> (prio xb <= prio z)%Z) /\ cl' ++ (pop_tok s :: fut) = total). split.
+        { exists (upd h2 b None), (upd tg2 b TEmpty), m. split; [apply Rep_set_cell; exact HR2|].
+          split; [reflexivity|]. split; [exact HGt|]. split; [|split; [|exact HH2]].
+          - rewrite <- M21. apply Permutation_sym. apply (prios_take cap OK SH h2 b xb Rb Exb).
+          - intros z Hz. rewrite upd_other in Hz by congruence. apply (root_max cap OK SH (S m) h2 tg2 ltac:(lia) HG2 b xb z Exb Hz). }
+        intros _. cbn [vi]. change (nval (heap g2 b)) with (cellv g2 b). rewrite S3, Exb.
+        apply hsafe_unlock. intros g3 h3 tg3 n3 cl3 HR3 (En3 & HG3 & MP & Hxb & HH3). subst n3.
+        pose proof HR3 as (T1 & T2 & T3 & T4). unfold cellv, cellt in T3, T4. pose proof HG3 as (HO3 & [HE3 HA3] & _).
+        assert (Hex : exists z, h3 1 = Some z).
+        { pose proof (Occ_slot cap OK SH m h3 1 HO3 ltac:(lia)) as K. rewrite slot_1 in K. destruct (h3 1) as [z|]; [eauto|congruence]. }
+        destruct Hex as [z Ez].
+        assert (Htop : tg3 1 = TAvail) by (apply HA3; rewrite Ez; discriminate).
+        unfold body_pop_top. cbv zeta. rewrite T4, T3, Htop, Ez. cbn [tag_eqb fst snd flat_map]. split; [reflexivity|].
+        assert (Hp : Permutation s (prio z :: prios cap (upd h3 1 (Some xb)))).
+        { rewrite <- MP. apply Permutation_sym. apply (prios_replace cap OK SH h3 1 xb z ltac:(lia) Ez). }
+        assert (Hmax : forall y, In y (prios cap (upd h3 1 (Some xb))) -> (y <= prio z)%Z).
+        { intros y Hy. apply (in_prios cap OK SH) in Hy. destruct Hy as (k & x' & Hk & <-).
+          destruct (Nat.eq_dec k 1) as [->|K1].
+          - rewrite upd_same in Hk. inversion Hk; subst x'. apply Hxb. exact Ez.
+          - rewrite upd_other in Hk by exact K1. apply (root_max cap OK SH m h3 tg3 T2 HG3 k x' z Hk Ez). }
+        destruct (popped_max s z _ m M2 Hp Hmax) as (s' & Epop & Hps & Hls & Htok).
+        exists (DownA 1 s' (pop_tok s :: fut)). split.
+        { exists (upd h3 1 (Some xb)), (upd tg3 1 TAvail), m. split; [apply Rep_set_cell; exact HR3|].
+          split; [apply (DownInv_top cap OK SH m h3 tg3 xb ltac:(lia) HG3)|]. split; [split; assumption|exact HH3]. }
+        intros _. cbn [vb vi]. unfold obind. apply Conc.safe_bind.
+        eapply Conc.safe_weaken; [|apply hsafe_heapify_pop; reflexivity].
+        intros [[]|] l' Hl'; cbn in Hl' |- *; [|exact I]. rewrite Epop. cbn [fst]. split; [exact Hl'|exact Htok].
+  Qed.
+
+  (** *** client operations *)
+  Lemma snoc_assoc {X} (l : list X) a r : (l ++ [a]) ++ r = l ++ a :: r.
+  Proof. rewrite <- app_assoc. reflexivity. Qed.
+
+  Lemma hsafe_emit_silent {R} es (k : prog R) (P : asrt) (Q : R -> asrt -> Prop) :
+    flat_map tok es = [] -> safe 0 k P Q -> safe 0 (Emit es k) P Q.
+  Proof.
+    intros E H. cbn [Conc.safe]. intros g a tr Hi Hv. exists a. split; [apply SInv_silent; assumption|].
+    split; [apply frame_refl|]. rewrite Hv. exact H.
+  Qed.
+
+  Definition spec_op (o : op) : pop_op := match o with OPush x => Push (prio x) | OPop => Pop end.
+
+  Lemma hsafe_run_op hf lf o s os :
+    safe 0 (run_op cap hf lf 0 o) (UpA 0 s (spec_hist cap s (o :: os)))
+      (fun ok l' => ok = true -> l' = UpA 0 (fst (bpq_step cap s (spec_op o))) (spec_hist cap (fst (bpq_step cap s (spec_op o))) os)).
+  Proof.
+    destruct o as [x|]; cbn [run_op spec_hist spec_op].
+    - set (s' := fst (bpq_step cap s (Push (prio x)))). set (fut := spec_hist cap s' os).
+      apply hsafe_emit. intros h tg n cl (HU & HM & HH). destruct x as [p id].
+      assert (Et0 : flat_map tok [EvCli "inv_push" (zitem (p, id))] = [[1%Z; p]]) by reflexivity.
+      rewrite Et0. change (prio (p, id)) with p in HH.
+      split; [exists (push_tok cap s :: fut); rewrite snoc_assoc; exact HH|].
+      exists (UpA 0 s (push_tok cap s :: fut)). split; [split; [exact HU|split; [exact HM|rewrite snoc_assoc; exact HH]]|].
+      apply Conc.safe_bind. eapply Conc.safe_weaken; [|apply (hsafe_push hf lf (p, id) s fut)].
+      intros [b|] l' Hl'; cbn [optQ] in Hl'.
+      + destruct Hl' as [-> Htok]. apply hsafe_emit. intros h2 tg2 n2 cl2 (HU2 & HM2 & HH2).
+        assert (Et : flat_map tok [EvCli "ret_push" ((if b then 1%Z else 0%Z) :: zitem (p, id))] = [push_tok cap s]).
+        { rewrite Htok. destruct b; reflexivity. }
+        rewrite Et. split; [exists fut; rewrite snoc_assoc; exact HH2|].
+        exists (UpA 0 s' fut). split; [split; [exact HU2|split; [exact HM2|rewrite snoc_assoc; exact HH2]]|].
+        cbn. intros _. reflexivity.
+      + apply hsafe_emit_silent; [reflexivity|]. cbn. discriminate.
+    - set (s' := fst (pq_pop s)). set (fut := spec_hist cap s' os).
+      apply hsafe_emit. intros h tg n cl (HU & HM & HH).
+      assert (Et0 : flat_map tok [EvCli "inv_pop" []] = [[3%Z]]) by reflexivity. rewrite Et0.
+      split; [exists (pop_tok s :: fut); rewrite snoc_assoc; exact HH|].
+      exists (UpA 0 s (pop_tok s :: fut)). split; [split; [exact HU|split; [exact HM|rewrite snoc_assoc; exact HH]]|].
+      apply Conc.safe_bind. eapply Conc.safe_weaken; [|apply (hsafe_pop hf lf s fut)].
+      intros [[x|]|] l' Hl'; cbn [optQ] in Hl'.
+      + destruct Hl' as [-> Htok]. apply hsafe_emit. intros h2 tg2 n2 cl2 (HU2 & HM2 & HH2).
+        assert (Et : flat_map tok [EvCli "ret_pop" (1%Z :: zitem x)] = [pop_tok s]) by (rewrite Htok; destruct x; reflexivity).
+        rewrite Et. split; [exists fut; rewrite snoc_assoc; exact HH2|].
+        exists (UpA 0 s' fut). split; [split; [exact HU2|split; [exact HM2|rewrite snoc_assoc; exact HH2]]|].
+        cbn. intros _. reflexivity.
+      + destruct Hl' as [-> Htok]. apply hsafe_emit. intros h2 tg2 n2 cl2 (HU2 & HM2 & HH2).
+        assert (Et : flat_map tok [EvCli "ret_pop" [0%Z; 0%Z; 0%Z]] = [pop_tok s]) by (rewrite Htok; reflexivity).
+        rewrite Et. split; [exists fut; rewrite snoc_assoc; exact HH2|].
+        exists (UpA 0 s' fut). split; [split; [exact HU2|split; [exact HM2|rewrite snoc_assoc; exact HH2]]|].
+        cbn. intros _. reflexivity.
+      + apply hsafe_emit_silent; [reflexivity|]. cbn. discriminate.
+  Qed.
+
+  Lemma hsafe_run_ops hf lf : forall os s,
+    safe 0 (run_ops cap hf lf 0 os) (UpA 0 s (spec_hist cap s os)) (@Conc.QTrue asrt).
+  Proof.
+    induction os as [|o r IH]; intros s; cbn [run_ops]; [exact I|].
+    apply Conc.safe_bind. eapply Conc.safe_weaken; [|apply hsafe_run_op].
+    intros [|] l' Hl'; [rewrite (Hl' eq_refl); apply IH|exact I].
+  Qed.
+
+  Lemma hsafe_thread hf lf os :
+    safe 0 (thread_prog cap hf lf 0 os) (UpA 0 [] (spec_hist cap [] os)) (@Conc.QTrue asrt).
+  Proof.
+    unfold thread_prog. cbn [Conc.safe]. intros g a tr Hi Hv. cbn [a_begin fst snd]. exists a.
+    split; [apply SInv_silent; [reflexivity|exact Hi]|]. split; [apply frame_refl|]. rewrite Hv. apply hsafe_run_ops.
+  Qed.
 End Seq.
+
+(** ** the theorem *)
+Lemma prios_empty cap : prios cap (fun _ => None) = [].
+Proof. unfold prios, items. induction (seq 1 cap) as [|k l IH]; [reflexivity|exact IH]. Qed.
+
+Theorem mspq_sequential_refines cap (OK : slots_ok cap = true) (SH : shape_ok cap = true) hf lf os c :
+  Conc.reach (init_cfg cap hf lf [os]) c ->
+  exists fut, phist (Conc.trace c) ++ fut = spec_hist cap [] os.
+Proof.
+  intros Hr. set (total := spec_hist cap [] os).
+  assert (H0 : Conc.cfg_ok (view) (SInv cap total) (init_cfg cap hf lf [os])).
+  { exists (fun _ => UpA cap total 0 [] total). split.
+    - split; [|exists total; reflexivity]. exists (fun _ => None), (fun _ => TEmpty), 0. split.
+      + split; [reflexivity|]. split; [lia|]. split; intros i; reflexivity.
+      + split; [|split; [split; [rewrite prios_empty; constructor|reflexivity]|reflexivity]].
+        apply (Good_UpInv0 cap OK SH). split; [|split; [split; [reflexivity|congruence]|]].
+        * intros i. split; [congruence|]. intros (j & Hj & _). lia.
+        * intros k _ x Hx. discriminate.
+    - intros t p Hp. cbn [init_cfg Conc.threads thread_progs] in Hp. destruct t as [|[|t]]; try discriminate.
+      inversion Hp. apply (hsafe_thread cap OK SH total hf lf os). }
+  destruct (Conc.reach_Inv H0 Hr) as (a & _ & Hpre). exact Hpre.
+Qed.
